@@ -252,6 +252,8 @@ func runC10(c *Ctx) {
 	}
 
 	ruleArgumentOnlyWhenUnsupplied(c, "C10.3")
+	// suppliers and requirements meet under one key (otherwise a supplied type becomes a parameter)
+	c09SupplierMap(c, "C10.3")
 	ruleIsContextType(c, "C10.6")
 	ruleTypeIdentity(c, "C10.6", genPkg)
 
